@@ -26,7 +26,7 @@
     durable after the directory fsync; same geometry across restarts. *)
 From Coq Require Import List NArith ZArith Bool Arith Lia.
 From BBS Require Import Common.Sx Persist.PBL Persist.Syncer Persist.Crash Persist.CrashLts
-  Persist.CrashEpochProofs Persist.CrashAllocProofs Index.RecordCodec Index.RecordCodecProofs Run.R02.
+  Persist.CrashEpochProofs Persist.CrashAllocProofs Persist.CrashOffsetsProofs Index.RecordCodec Index.RecordCodecProofs Run.R02.
 Import ListNotations.
 Local Open Scope nat_scope.
 
@@ -122,6 +122,58 @@ Theorem no_overwrite_after_restart_partial : forall g cfg base t0 c, (0 < g_sect
      (b_written b <= round_up (g_sector g) (b_written b) /\ round_up (g_sector g) (b_written b) <= up_off u)%Z).
 Proof. exact CrashAllocProofs.alloc_above_restored_offset. Qed.
 Print Assumptions no_overwrite_after_restart_partial.
+
+(** ---- key lemma 3: restored write offsets cover every resolvable location ---- *)
+Theorem restored_offsets_cover : forall g cfg t0 c, length (g_locs g) < 65536 ->
+  creach g cfg medium_empty t0 c ->
+  forall n ch slot r i, resolves g (crash_of medium_empty c n ch) slot r i ->
+  exists b, nth_error (blocks (fst (restart (geom g) (m_state (crash_of medium_empty c n ch))))) i = Some b /\
+    (r_off r + r_size r <= b_written b)%Z /\ (0 <= r_off r)%Z /\ (0 <= r_size r)%Z.
+Proof. exact CrashOffsetsProofs.restored_offsets_cover. Qed.
+Print Assumptions restored_offsets_cover.
+
+(** ---- no overwrite after restart ----
+    FULL STATEMENT (no_overwrite_after_restart): for a store restarted on the media of ANY crash of a
+    first life, no data write of the new life touches the bytes of a location that resolved at the
+    restart, until a state file without that block is durable.
+    Proved: (a) every data write of a life into a block restored at its start lies at or above the
+    restored write offset rounded up to a sector (any base medium); (b) for a second life started on
+    the crashed media of a first life: every data write into restored block i lies above the end of
+    every location that resolves to block i.  Missing: a write into a NEW block allocated on the
+    region of a restored block that was popped and released during the second life — covered by
+    the release discipline of the model ([release_regions]: a region returns to the free list only
+    when NotifyPersistentStateWritten ran, i.e. after the six directory operations of a state write
+    completed) and by the harness, not yet by a theorem (see crash_safe_bytes below). *)
+Theorem no_overwrite_after_restart_block : forall g cfg base t0 c, (0 < g_sector g)%Z ->
+  creach g cfg base t0 c ->
+  forall q k l lo hi, nth_error (cs_log c) q = Some (IoData k l lo hi) ->
+  forall up i b, nth_error (cs_ups c) k = Some up -> up_abs up = i ->
+    nth_error (blocks (fst (restart (geom g) (m_state base)))) i = Some b ->
+    (b_written b <= round_up (g_sector g) (b_written b) <= lo)%Z.
+Proof. exact CrashOffsetsProofs.no_overwrite_after_restart_block. Qed.
+Print Assumptions no_overwrite_after_restart_block.
+
+Theorem no_overwrite_after_restart_partial2 :
+  forall g cfg t0 c n ch cfg2 t02 c2,
+  length (g_locs g) < 65536 -> (0 < g_sector g)%Z ->
+  creach g cfg medium_empty t0 c ->
+  creach g cfg2 (crash_of medium_empty c n ch) t02 c2 ->
+  forall slot r i, resolves g (crash_of medium_empty c n ch) slot r i ->
+  forall q k l lo hi up, nth_error (cs_log c2) q = Some (IoData k l lo hi) ->
+    nth_error (cs_ups c2) k = Some up -> up_abs up = i ->
+    (r_off r + r_size r <= lo)%Z.
+Proof. exact CrashOffsetsProofs.committed_space_not_overwritten_in_restored_block. Qed.
+Print Assumptions no_overwrite_after_restart_partial2.
+
+(** the data writes of one upload tile its allocation: once all bytes were issued every byte of the
+    allocation is covered by a write of that upload (any base medium) *)
+Theorem upload_writes_cover : forall g cfg base t0 c, creach g cfg base t0 c ->
+  forall k up, nth_error (cs_ups c) k = Some up -> up_issued up = up_size up ->
+  forall z, (up_off up <= z < up_off up + up_size up)%Z ->
+    exists l lo hi, In (IoData k l lo hi) (cs_log c) /\
+      nth_error (cs_locs c) (up_abs up) = Some l /\ (lo <= z < hi)%Z.
+Proof. intros g cfg base t0 c R k up H. exact (proj2 (CrashOffsetsProofs.upload_writes_tile g cfg base t0 c R k up H)). Qed.
+Print Assumptions upload_writes_cover.
 
 (** ---- non-vacuity: a concrete history (push a block, upload 20 bytes of key 5
     in two device writes, finalize + record in slot 3, one commit cycle of the
